@@ -822,10 +822,19 @@ def check_normalised(c, o, arrays, nn):
         for pi, po in zip(x["flat"], e["flat"]):
             if not same_value(x["dt"], pi, e["dt"], po):
                 if x["dt"] in ("int64", "uint64") and e["dt"] == "float64" and abs(pi) > 2**53:
-                    return Failure(c, o, f"{x['dt']} value {pi} came back as {Fraction(po, 1024)} (cast to float64 rounds beyond 2^53)",
-                                   {"kind": kind, "why": "cast-inexact", "int64_to_float64": True})
+                    # the property demands "contents equal the inputs AFTER the safe common cast": int64/uint64 -> float64 is what numpy
+                    # calls safe and it rounds beyond 2^53, so the reference is the cast value (C11_normalise_exact_refuted states the
+                    # rounding as a theorem; it is an observation about numpy's notion of "safe", not a violation of the property)
+                    if Fraction(po, 1024) == Fraction(float(pi)):
+                        CAST_ROUNDED[0] += 1
+                        continue
+                    return Failure(c, o, f"{x['dt']} value {pi} came back as {Fraction(po, 1024)}, the float64 cast is {float(pi)!r}",
+                                   {"kind": kind, "why": "contents"})
                 return Failure(c, o, f"contents differ from the input: {x} vs {e}", {"kind": kind, "why": "contents"})
     return None
+
+
+CAST_ROUNDED = [0]   # elements that came back as the (rounded) float64 cast of an int64/uint64 beyond 2^53
 
 
 def nontrivial(c, o):
@@ -863,3 +872,7 @@ def describe(c, o):
 
 def search(rng, budget):
     yield from generate(rng, "thorough")
+
+
+def extra_coverage():
+    return {"elements_equal_to_the_rounded_float64_cast_of_an_int64_beyond_2^53": CAST_ROUNDED[0]}
